@@ -73,4 +73,10 @@ CHECKS["C03"] = {
   "note": "exact reals; all three SVD routines are the same verified-frame stub (svds in ARPACK's ascending order), so the glue (reversal, truncation, projector formulas) is what is decided, not ARPACK; simple spectrum and singular values clear of rcond assumed; frames from the finite library",
   "technique": TECH,
 }
+CHECKS["C04"] = {
+  "text": "On the factor family the real PCovR is fitted with mixing = 1 (coordinates and reconstruction compared with PCA written from the factors), mixing = 0 (predictions compared with the least-squares projection), symbolic mixing (the mixed objective of PCovR's own latent subspace, built from its transform output, is shown <= the objective of every k-subset of frame directions - which contains PCA's and the regression's subspaces - and of a rotation of its own subspace towards every other direction by a symbolic angle), and two symbolic mixings a < b (training reconstruction loss non-increasing, regression loss non-decreasing).",
+  "design_ref": "DESIGN.md 2/C04, 1.4",
+  "note": "exact reals; verified-frame decompositions; optimality is decided against the stated competitor families only (not the whole Grassmannian); frames from the finite library",
+  "technique": TECH,
+}
 NOT_APPLICABLE = {}
